@@ -64,9 +64,10 @@ class Owner:
 
 
 class World:
-    def __init__(self, pair, eq=False):
+    def __init__(self, pair, eq=False, only_methods=False):
         self.pair = pair
         self.eq = eq
+        self.only_methods = only_methods
         pool = G.make_pool(eq=eq)
         self.cls = type(pool[0])
         self.nodes = [pool[0]]
@@ -84,7 +85,12 @@ class World:
             obs.append((id(event.object), getattr(event, "name", None)))
         self.lh, self.oh = lh, oh
         self.root = self.nodes[0]
-        self.root.on_trait_change(lh, PAIRS[pair][0])
+        if only_methods:
+            # exactly two legacy handlers, both bound methods: the primary
+            # log is owner A's
+            self.legacy = self.owner_a.calls
+        else:
+            self.root.on_trait_change(lh, PAIRS[pair][0])
         self.root.on_trait_change(self.owner_a.m, PAIRS[pair][0])
         self.root.on_trait_change(self.owner_b.m, PAIRS[pair][0])
         self.root.observe(oh, PAIRS[pair][1])
@@ -145,7 +151,8 @@ def apply(w, ev):
     """-> (kind, subject) where kind in link / container / none"""
     k = ev[0]
     if k == "unregister":
-        w.root.on_trait_change(w.lh, PAIRS[w.pair][0], remove=True)
+        if not w.only_methods:
+            w.root.on_trait_change(w.lh, PAIRS[w.pair][0], remove=True)
         w.root.on_trait_change(w.owner_a.m, PAIRS[w.pair][0], remove=True)
         if w.owner_b is not None:
             w.root.on_trait_change(w.owner_b.m, PAIRS[w.pair][0],
@@ -321,7 +328,8 @@ def probe(ctx, w, hist):
 
 
 def run_history(ctx, pair, hist, eq=False):
-    w = World(pair, eq=eq)
+    # eq == 2: plain nodes, but only the two bound-method handlers
+    w = World(pair, eq=(eq is True or eq == 1), only_methods=(eq == 2))
     for i, ev in enumerate(hist):
         if not enabled(w, ev):
             return None, None
@@ -343,6 +351,7 @@ def shards(tier):
         for i in range(n):
             out.append({"pair": pair, "first": i, "eq": False})
             out.append({"pair": pair, "first": i, "eq": True})
+            out.append({"pair": pair, "first": i, "eq": 2})
     return out
 
 
